@@ -118,6 +118,31 @@ pub fn ev_mismatch<V: Val>(t: &mut Tracer, h: u32, pma: &Pma<V>, method: &str, e
                   "outcome": outcome, "hoplimit": hoplimit, "capped": capped}));
 }
 
+/// hands a live iterator to an internal-iteration method of the Iterator trait
+pub fn ev_drain<V: Val>(t: &mut Tracer, rng: &mut Rng, id: u32, it: crate::pma::StepIter<'_, V>, avail: Option<usize>) {
+    let mode = *rng.pick(&["fold", "for_each", "count", "last"]);
+    let (ms, n, last, pulled) = it.drain_pulled(mode);
+    let res: Vec<Value> = ms.iter().map(MatchRec::json).collect();
+    let last: Vec<Value> = last.iter().map(MatchRec::json).collect();
+    let mut ev = json!({"ev": "drain", "it": id, "mode": mode, "res": res, "n": n, "last": last, "pulled": pulled});
+    if let Some(a) = avail {
+        ev["avail"] = json!(a);
+    }
+    t.emit(ev);
+}
+
+/// some results one by one, the rest through fold / count / last of the Iterator trait
+pub fn ev_search_mixed<V: Val>(t: &mut Tracer, rng: &mut Rng, h: u32, pma: &Pma<V>, method: &str, entry: &str, hay: &Rc<Vec<u8>>) {
+    let j = rng.below(4);
+    let mode = *rng.pick(&["fold", "fold", "count", "last"]);
+    let (ms, rest_n, last) = pma.search_mixed(method, entry, hay, j, mode);
+    t.emit(json!({
+        "ev": "consume", "h": h, "method": method, "entry": entry, "hay": hay.as_slice(), "first": j, "mode": mode,
+        "res": ms.iter().map(MatchRec::json).collect::<Vec<_>>(), "rest_n": rest_n,
+        "last": last.iter().map(MatchRec::json).collect::<Vec<_>>(),
+    }));
+}
+
 pub fn ev_roundtrip<V: Val>(t: &mut Tracer, h: u32, pma: &Pma<V>, trail: &[u8]) -> (u32, Pma<V>) {
     let h2 = t.handle();
     let bytes = pma.serialize();
@@ -127,8 +152,16 @@ pub fn ev_roundtrip<V: Val>(t: &mut Tracer, h: u32, pma: &Pma<V>, trail: &[u8]) 
     let eq = pma.same(&p2);
     let rest_ok = rest == trail;
     let reser = p2.serialize();
+    let ne = |p: &Pma<V>| -> i64 {
+        match p {
+            Pma::B(_) => -1,
+            Pma::C(_) => p.num_elements() as i64,
+        }
+    };
     t.emit(json!({
         "ev": "roundtrip", "h": h, "h2": h2, "trail": trail, "eq": eq, "rest_ok": rest_ok,
+        "stats": [pma.num_states(), p2.num_states(), pma.heap_bytes(), p2.heap_bytes()],
+        "elements": [ne(pma), ne(&p2)],
         "restlen": rest.len(), "reser_ok": reser == bytes, "len": bytes.len(),
         "src_untouched": src[..bytes.len()] == bytes[..] && src[bytes.len()..] == *trail,
     }));
@@ -216,6 +249,11 @@ fn run_block<V: Val>(
             if rng.chance(1, 2) {
                 ev_search(t, h, &pma, m, "owned", hay, 0);
             }
+            // part of the results through the internal-iteration methods of the Iterator trait
+            if rng.chance(1, 3) {
+                let entry = if *m != "lm" && rng.chance(1, 2) { "iter" } else { "slice" };
+                ev_search_mixed(t, rng, h, &pma, m, entry, hay);
+            }
         }
     }
     // restored automata: in scope of C07 and C09 by their statements; a restored automaton must
@@ -263,9 +301,21 @@ fn small_typed<V: Val>(t: &mut Tracer, rng: &mut Rng, cx: &Ctx, var: Var, kind: 
     let spec = BuildSpec { var, kind, entry, via_builder, nfb, pats };
     let vals: Vec<V> = mk_vals(rng, spec.pats.len(), entry);
     let nh = rng.range(3, 6);
-    let hays: Vec<Rc<Vec<u8>>> = (0..nh)
+    let mut hays: Vec<Rc<Vec<u8>>> = (0..nh)
         .map(|_| Rc::new(gen_haystack(rng, var, &alpha, 14, &spec.pats)))
         .collect();
+    // special shapes: a pattern as the whole haystack, only characters unknown to the automaton, empty
+    if rng.chance(1, 2) {
+        let p = spec.pats[rng.below(spec.pats.len())].clone();
+        hays.push(Rc::new(pat_bytes(var, &p)));
+    }
+    if rng.chance(1, 3) && !alpha.extra.is_empty() {
+        let only_unknown = Alpha { pat: alpha.extra.clone(), extra: vec![] };
+        hays.push(Rc::new(gen_haystack(rng, var, &only_unknown, 6, &[])));
+    }
+    if rng.chance(1, 4) {
+        hays.push(Rc::new(vec![]));
+    }
     let extra: Vec<u32> = alpha.extra.iter().copied().take(5).collect();
     if cx.prop == "C08" && var == Var::C {
         let twin = BuildSpec {
@@ -348,7 +398,8 @@ fn fam_small(t: &mut Tracer, rng: &mut Rng, cx: &Ctx) {
     let kind = *rng.pick(&kinds_for(cx.prop));
     let vt: &str = match cx.prop {
         "C06" | "C09" | "C10" => *rng.pick(ALL_TYPES),
-        _ => *rng.pick(&["u32", "u32", "u64", "usize", "i16", "u8"]),
+        // (Empty is what the bundled CLI uses)
+        _ => *rng.pick(&["u32", "u32", "u64", "usize", "i16", "u8", "Empty", "Empty"]),
     };
     with_val!(vt, small_typed(t, rng, cx, var, kind));
 }
@@ -437,16 +488,28 @@ fn fam_wide(t: &mut Tracer, rng: &mut Rng, cx: &Ctx) {
     if rng.chance(1, 2) {
         pats.push(vec![base]); // the single label 0x00 / first character
     }
-    if rng.chance(1, 2) {
+    if rng.chance(if var == Var::B { 2 } else { 1 }, if var == Var::B { 3 } else { 2 }) {
         // a wide ROOT: one-label patterns for almost the whole alphabet fill block 0 completely
         let nroot = if var == Var::B { rng.range(230, 254) } else { rng.range(200, 290) };
         let mut all: Vec<u32> = (0..universe).collect();
         rng.shuffle(&mut all);
-        let (nroot, all) = if var == Var::B && rng.chance(1, 2) {
+        let (nroot, all) = if var == Var::B && rng.chance(1, 3) {
             // all byte values except a pair {2m, 2m+1}: the root's children then fill block 0 to its
             // very last vacant slot (BASE = 2m or 2m+1)
             let m = rng.below(128) as u32;
             (254, (0..256u32).filter(|&x| x != 2 * m && x != 2 * m + 1).collect::<Vec<u32>>())
+        } else if var == Var::B && rng.chance(1, 2) {
+            // at least one of every pair {2m, 2m+1} (all 256 byte values now and then): no BASE in
+            // block 0 is free for the root's children, they are placed in a later block
+            let both = rng.chance(1, 3);
+            let f: Vec<u32> = (0..128u32)
+                .flat_map(|m| match if both { 2 } else { rng.below(3) } {
+                    0 => vec![2 * m],
+                    1 => vec![2 * m + 1],
+                    _ => vec![2 * m, 2 * m + 1],
+                })
+                .collect();
+            (f.len(), f)
         } else {
             (nroot, all)
         };
@@ -709,6 +772,41 @@ fn invalid_typed<V: Val>(t: &mut Tracer, rng: &mut Rng, _cx: &Ctx, var: Var, kin
             }
         }
     }
+    // a chain of nested prefixes of one word registered in an arbitrary order, with a repeat of one of them
+    // anywhere after its first registration: under leftmost-first the state that shadows the repeated
+    // pattern can change between its two registrations (["ab","abx","a","abx"])
+    if !long && rng.chance(1, 5) {
+        let n = rng.range(3, 5);
+        let w: Pat = (0..n).map(|_| *rng.pick(&alpha.pat)).collect();
+        let mut lens: Vec<usize> = (1..=n).collect();
+        rng.shuffle(&mut lens);
+        lens.truncate(rng.range(2, n));
+        let mut chain: Vec<Pat> = lens.iter().map(|&l| w[..l].to_vec()).collect();
+        if rng.chance(1, 2) {
+            // middle, long, short, long again (other prefixes in between now and then)
+            let l1 = rng.range(2, n - 1);
+            let l0 = rng.range(1, l1 - 1);
+            chain = vec![w[..l1].to_vec(), w.clone(), w[..l0].to_vec(), w.clone()];
+            if rng.chance(1, 3) {
+                let at = rng.range(1, 3);
+                let l = rng.range(1, n);
+                if !chain.contains(&w[..l].to_vec()) {
+                    chain.insert(at, w[..l].to_vec());
+                }
+            }
+        } else if rng.chance(4, 5) {
+            let i = rng.below(chain.len());
+            let rep = chain[i].clone();
+            let at = rng.range(i + 1, chain.len());
+            chain.insert(at, rep);
+        }
+        pats.retain(|p| !p.is_empty() && !chain.contains(p));
+        pats.truncate(2);
+        for c in chain {
+            pats.push(c);
+        }
+        // (the relative order of the chain is kept; unrelated patterns stay in front)
+    }
     let entry = if rng.chance(1, 2) { "new" } else { "with_values" };
     let via_builder = kind != Kind::Std || rng.chance(1, 2);
     let nfb = if via_builder { *rng.pick(&[1u32, 2, 16]) } else { 16 };
@@ -952,6 +1050,12 @@ fn fam_lazy(t: &mut Tracer, rng: &mut Rng, _cx: &Ctx) {
         if its[k].2 {
             continue;
         }
+        // now and then the rest of an iterator goes to fold / for_each / count / last
+        if rng.chance(1, 12) {
+            let (id, it, _, _) = its.remove(k);
+            ev_drain(t, rng, id, it, None);
+            continue;
+        }
         let (m, pulled, probes, hops) = its[k].1.step();
         let res: Vec<Value> = m.iter().map(MatchRec::json).collect();
         t.emit(json!({"ev": "next", "it": its[k].0, "res": res, "pulled": pulled, "probes": probes, "hops": hops}));
@@ -1122,15 +1226,24 @@ fn fam_stream(t: &mut Tracer, rng: &mut Rng, cx: &Ctx) {
             ev_search(t, h, &pma, m, "slice", &hay, 0); // reference
             let id = t.iter_id();
             t.emit(json!({"ev": "iter_new", "it": id, "h": h, "method": m, "entry": "stream", "hay": hay.as_slice()}));
-            let mut it = pma.iter(m, "stream", &hay);
+            let mut it = Some(pma.iter(m, "stream", &hay));
+            // after some arrival, hand what is left to an internal-iteration method instead of polling
+            let drain_at = if rng.chance(1, 3) { Some((cuts[rng.below(cuts.len())], rng.below(3))) } else { None };
             for &avail in &cuts {
-                it.limit.as_ref().unwrap().set(avail);
+                let Some(cur) = it.as_mut() else { break };
+                cur.limit.as_ref().unwrap().set(avail);
                 // poll until the iterator reports that nothing more is available, and once more
                 let mut nones = 0;
                 let mut guard = 0;
                 while nones < 2 && guard < 500 {
+                    if let Some((at, after)) = drain_at {
+                        if at == avail && guard == after {
+                            ev_drain(t, rng, id, it.take().unwrap(), Some(avail));
+                            break;
+                        }
+                    }
                     guard += 1;
-                    let (mm, pulled, probes, hops) = it.step();
+                    let (mm, pulled, probes, hops) = it.as_mut().unwrap().step();
                     let res: Vec<Value> = mm.iter().map(MatchRec::json).collect();
                     t.emit(json!({"ev": "next", "it": id, "avail": avail, "res": res, "pulled": pulled, "probes": probes, "hops": hops}));
                     if mm.is_none() {
@@ -1169,9 +1282,17 @@ fn fam_decode(t: &mut Tracer, rng: &mut Rng, _cx: &Ctx) {
 fn fam_values(t: &mut Tracer, rng: &mut Rng, cx: &Ctx, i: u64) {
     // (not i % len: the family schedule is periodic in i as well and would never reach some types)
     let _ = i;
-    let vt = if rng.chance(1, 4) { *rng.pick(&["usize", "isize", "i128", "u128", "u64", "i64"]) } else { *rng.pick(ALL_TYPES) };
+    // Empty (zero-sized, what daacfind uses) gets a sixth of the scenarios: representation shortcuts for it
+    // are invisible to every other type
+    let vt = if rng.chance(1, 6) {
+        "Empty"
+    } else if rng.chance(1, 4) {
+        *rng.pick(&["usize", "isize", "i128", "u128", "u64", "i64"])
+    } else {
+        *rng.pick(ALL_TYPES)
+    };
     let var = if rng.chance(1, 2) { Var::C } else { Var::B };
-    let kind = *rng.pick(&[Kind::Std, Kind::LL, Kind::LF]);
+    let kind = *rng.pick(&[Kind::Std, Kind::Std, Kind::LL, Kind::LF]);
     with_val!(vt, small_typed(t, rng, cx, var, kind));
 }
 
@@ -1187,7 +1308,7 @@ pub fn family_of(prop: &str, i: u64) -> &'static str {
     match prop {
         "C01" | "C02" | "C03" | "C05" | "C08" | "C13" => match i % 12 {
             11 | 3 => "dict",
-            5 => "wide",
+            5 | 10 => "wide",
             8 | 1 => "chain",
             _ => "small",
         },
